@@ -26,6 +26,7 @@ RULE = (
     "sequence in which a later operation touches a key or value an earlier one registered (every sequence of >= 2 "
     "operations here, since all data sets share keys); sequences are distinct by construction."
     "Every data set is a stream with a name derived from its content, so that messages that refer to another data set's file are noticed."
+    "Writers are handed the very row objects an earlier complete reading of the same table delivered; a writer may be set up in the main thread and fed by the one worker thread of the process."
 )
 ASSUMPTIONS = [
     "runs are started one after the other; the only interleaving is the late finalisation (close) of an earlier "
